@@ -33,7 +33,8 @@ EXPLANATION = (
     "rebuilds the pointers with one more entry in that column, ignores only a new zero, get_entry reads at first + the binary-search index; (R15) deduplicate sums runs inside "
     "one column only (every scan bounded by the column end) and writes row and sum together at the output cursor. Every inner loop must be the entry range of the *same* column the outer "
     "loop is at: an iterator that is not recognised as such leaves a raw term and the comparison fails closed."
-    ' R7 also: every pass of is_triu scans the column unless the column was found empty.')
+    ' R7 also: every pass of is_triu scans the column unless the column was found empty.'
+    ' (R16) canonicalize: every successful path runs check_dimensions, sort_indices and deduplicate.')
 ASSUMPTIONS = ['rustc MIR construction and trait resolution are correct',
                'the matrix is canonical (colptr monotone, rows in range): what check_format establishes',
                'vector primitives (scale, negate, fill, sum, fold) have their documented meaning (primitives rule family)']
@@ -1122,6 +1123,29 @@ def dedup(rep, F, tag):
     R.guard(body)
 
 
+def canonicalize_complete(rep, F, tag):
+    """canonicalize = check dimensions, sort every column, consolidate duplicates.  Every path that reports success has done all three: a fast path for input
+    that is `already ordered' must not skip the consolidation (nondecreasing rows can still repeat)."""
+    R = rep.rule('C16.R16', 'canonicalize: every successful path runs check_dimensions, sort_indices and deduplicate')
+
+    def body():
+        f = F.one(name='canonicalize', adt='CscMatrix')
+        n = 0
+        for val, ret, ev, tr in Walker(f, cut_loops=True).leaves():
+            if ret[0] not in ('s', 'c'):
+                continue
+            r_ = str(ret[1])
+            if r_.startswith('from_residual(') or 'Result::Err' in r_:
+                continue
+            n += 1
+            names = [e[1] for e in ev if e[0] == 'call']
+            miss = [x for x in ('check_dimensions', 'sort_indices', 'deduplicate') if x not in names]
+            R.check(not miss, 'complete' + tag, 'canonicalize reports success on the path %s without %s: sorted input can still hold repeated row indices' % ({k[:50]: v for k, v in val.items()}, miss), f.loc())
+        R.check(n >= 1, 'paths' + tag, 'no successful path of canonicalize analysed', f.loc())
+
+    R.guard(body)
+
+
 def run(ctx, rep, tier):
     for cfg in CONFIGS:
         F = ctx.facts(cfg)
@@ -1139,6 +1163,7 @@ def run(ctx, rep, tier):
         triplet_consolidation(rep, F, tag)
         entry_access(rep, F, tag)
         dedup(rep, F, tag)
+        canonicalize_complete(rep, F, tag)
     # row selection (presolve): per-column bookkeeping, renumbered rows, rebuilt matrix (C09.R7 re-run)
     from . import c09, c04
     c09.row_selection(c04._Ren(rep, 'C09.R7', 'C16.R12'), ctx.facts('default'), '')
